@@ -171,6 +171,8 @@ def shard(sh):
     kind = sh["kind"]
     if kind == "gram":
         for k in range(sh["n"]):
+            if run.enough():
+                break
             s = gen.gen_stream(rng, hostile=rng.choice([0.0, 0.3, 0.8]), max_msgs=3)
             if len(s) > 1500:
                 continue
@@ -189,6 +191,8 @@ def shard(sh):
             check_stream(run, e1, s, {}, tier, rng, "fixture/" + name)
     elif kind == "limit":
         for k in range(sh["n"]):
+            if run.enough():
+                break
             cfgset = rng.choice(SMALL_CFGS + [{}])
             s = limit_shaped(rng, cfgset)
             check_stream(run, e1, s, cfgset, tier, rng, "limit")
@@ -198,6 +202,8 @@ def shard(sh):
     elif kind == "big":
         # heads near the default buffer sizes and bodies crossing 8192-multiples
         for k in range(sh["n"]):
+            if run.enough():
+                break
             nh = rng.randint(1, 6)
             hdrs = b"".join(b"X-%d: %s\r\n" % (i, b"v" * rng.choice([10, 4000, 8100, 8180])) for i in range(nh))
             body = bytes(rng.randrange(256) for _ in range(rng.choice([0, 10, 8192, 9000])))
